@@ -22,6 +22,8 @@ def to_oa_date(date):
     result = 1
     for y in range(1900, year):
         result += year_days(y)
+    for y in range(year, 1900):
+        result -= year_days(y)
     month = date.month - 1
     for m in range(month):
         result += month_days(year, m)
@@ -33,14 +35,25 @@ def to_oa_date(date):
     return result
 
 
+# days relative to 1970-01-01 that datetime can represent (years 1 to 9999)
+MIN_DAYS = -719162
+MAX_DAYS = 2932897
+
+
 def to_date(oadate):
     value = oadate - DAYS_EPOCH
+    if not (MIN_DAYS <= value < MAX_DAYS):
+        # also rejects nan and +/-inf, for which the loops below would not end
+        raise ValueError("date out of range")
     year = 1970
-    while value > year_days(year):
+    while value < 0:
+        year -= 1
+        value += year_days(year)
+    while value >= year_days(year):
         value -= year_days(year)
         year += 1
     month = 0
-    while value >= month_days(year, month):
+    while month < 11 and value >= month_days(year, month):
         value -= month_days(year, month)
         month += 1
     day = math.trunc(value) + 1
